@@ -753,6 +753,35 @@ func LimitsCheck(args []string) {
 				}
 			}
 		}})
+	// peer ids are chosen by the clients: a receiver that comes under the very peer id of the host (a copied command line,
+	// a hostile joiner) must not keep the code alive after the host has gone
+	cases = append(cases, limitsCase{Name: "host disconnect ends the code although a receiver took the host's peer id", Flags: off(),
+		Run: func(s *server, v func(string, map[string]any)) {
+			codes := mustCreate(s, 2)
+			host, _, herr := dialWS(wsURL(s, codes[0], "host", "sender"))
+			if herr != nil {
+				return
+			}
+			twin, _, terr := dialWS(wsURL(s, codes[0], "host", "receiver"))
+			time.Sleep(100 * time.Millisecond)
+			host.conn.Close()
+			gone := false
+			for i := 0; i < 300 && !gone; i++ {
+				time.Sleep(10 * time.Millisecond)
+				c, status, err := dialWS(wsURL(s, codes[0], "late", "receiver"))
+				if err != nil && status == 404 {
+					gone = true
+				} else if err == nil {
+					c.conn.Close()
+				}
+			}
+			if !gone {
+				v("join_admitted_after_host_left", map[string]any{"a_receiver_used_the_hosts_peer_id": terr == nil})
+			}
+			if twin != nil {
+				twin.conn.Close()
+			}
+		}})
 	for _, st := range []string{"24h", "0", "30s"} {
 		st := st
 		cases = append(cases, limitsCase{Name: "host disconnect ends the code (session-timeout " + st + ")", Flags: append(off(), "--session-timeout", st),
